@@ -56,7 +56,16 @@ type shOp struct {
 	// par: "" = the calls go to closure C; "Output"/"Run" = direct sh.Output/sh.Run(Cmd, slice...) (reference behaviour)
 	ParFn   string `json:"parfn"`
 	BoundMs int    `json:"bound_ms"` // par: how long to wait for ALL children to be alive at once
-	Reps    int    `json:"reps"`
+	// par, staggered start: Stagger[i] (may be null) is an os.Setenv done right before call i is started,
+	// after the children of all earlier calls are alive and held - a Setenv BETWEEN the starts of
+	// overlapping calls.  Without Stagger all calls are released together.
+	Stagger []*shSetenv `json:"stagger"`
+	Reps    int         `json:"reps"`
+}
+
+type shSetenv struct {
+	K string `json:"k"`
+	V string `json:"v"`
 }
 
 type shReq struct {
@@ -81,6 +90,7 @@ type shRep struct {
 	WaitedMs int64      `json:"waited_ms"`
 	Outs     []*string  `json:"outs"`
 	Errs     []string   `json:"errs"`
+	Status   []int      `json:"status"` // sh.ExitStatus of each call\'s error
 	Snap     [][]string `json:"snap"`
 }
 
@@ -329,7 +339,10 @@ func init() {
 					var rp shRep
 					rp.Outs = make([]*string, n)
 					errs := make([]error, n)
-					start := make(chan struct{})
+					turn := make([]chan struct{}, n) // closed to let call i go
+					for gi := range turn {
+						turn[gi] = make(chan struct{})
+					}
 					var wg sync.WaitGroup
 					wg.Add(n)
 					var returned int32
@@ -338,7 +351,7 @@ func init() {
 						go func(gi int, extra []string) {
 							defer wg.Done()
 							defer atomic.AddInt32(&returned, 1)
-							<-start
+							<-turn[gi]
 							switch o.ParFn {
 							case "Output":
 								s, err := sh.Output(o.Cmd, extra...)
@@ -351,30 +364,55 @@ func init() {
 						}(gi, extra)
 					}
 					t0 := time.Now()
-					close(start)
-					done := make(chan struct{})
-					go func() { wg.Wait(); close(done) }()
-					// The gate is opened only when every call has either its child alive (reported) or has
-					// returned (its child could not be started).  A held child cannot exit, so its call cannot
-					// return: if after the bound some call has done neither, it is being held back by
-					// another call of the same closure -> stalled (reported, then the gate is opened so
-					// that everything can finish).
 					bound := time.Duration(o.BoundMs) * time.Millisecond
 					if bound <= 0 {
 						bound = 15 * time.Second
 					}
-					for {
-						alive := len(shLines(q.OutFile))
-						ret := int(atomic.LoadInt32(&returned))
-						rp.Alive, rp.Returned = alive, ret
-						if alive+ret >= n {
-							break
+					// until `want` calls have their child alive (reported) or have returned; false: the bound passed
+					waitFor := func(want int) bool {
+						for {
+							alive := len(shLines(q.OutFile))
+							ret := int(atomic.LoadInt32(&returned))
+							rp.Alive, rp.Returned = alive, ret
+							if alive+ret >= want {
+								return true
+							}
+							if time.Since(t0) > bound {
+								return false
+							}
+							time.Sleep(300 * time.Microsecond)
 						}
-						if time.Since(t0) > bound {
-							rp.Stalled = true
-							break
+					}
+					done := make(chan struct{})
+					go func() { wg.Wait(); close(done) }()
+					// The gate is opened only when every call has either its child alive (reported) or has
+					// returned (its child could not be started).  A held child cannot exit, so its call cannot
+					// return: if after the bound some call has done neither, it is held back by - or riding
+					// on - another call of the same closure -> stalled (reported, then the gate is opened so
+					// that everything can finish).
+					released := 0
+					ok := true
+					for gi := 0; gi < n && ok; gi++ {
+						if len(o.Stagger) > 0 && gi > 0 {
+							// staggered: call gi starts only when the children of calls 0..gi-1 are alive and held
+							ok = waitFor(gi)
+							if !ok {
+								break
+							}
 						}
-						time.Sleep(300 * time.Microsecond)
+						if gi < len(o.Stagger) && o.Stagger[gi] != nil {
+							os.Setenv(o.Stagger[gi].K, o.Stagger[gi].V)
+							touched = append(touched, o.Stagger[gi].K)
+						}
+						close(turn[gi])
+						released++
+					}
+					if ok {
+						ok = waitFor(n)
+					}
+					rp.Stalled = !ok
+					for gi := released; gi < n; gi++ {
+						close(turn[gi])
 					}
 					rp.WaitedMs = time.Since(t0).Milliseconds()
 					if f, err := os.Create(q.Gate); err == nil {
@@ -382,8 +420,10 @@ func init() {
 					}
 					<-done
 					rp.Errs = make([]string, n)
+					rp.Status = make([]int, n)
 					for gi := range errs {
 						rp.Errs[gi] = errStr(errs[gi])
+						rp.Status[gi] = shStatus(errs[gi])
 					}
 					rp.Lines = shLines(q.OutFile)
 					rp.Snap = shSnap(arrays)
